@@ -96,3 +96,22 @@ Proof.
   eexists. split; [vm_compute; reflexivity|]. split; [reflexivity|].
   eexists. split; [vm_compute; reflexivity|]. split; reflexivity.
 Qed.
+
+(* ---- a Tag whose tag names no variant (the corpus trigger of fix f60e9c0): no order port, numbered links allowed; the
+   premises hold and the document round-trips ---- *)
+Definition ex_tag : hugr (op E0) N :=
+  {| h_nodes := [ Some (nd (ODFG [tbool] [tbool] []) None [1; 2] 0);
+                  Some (nd (OInput [tbool]) (Some 0) [] 0);
+                  Some (nd (OTag 5%N (TSum [[tbool]])) (Some 0) [] 1) ];
+     h_root := 0;
+     h_links := [ ((1, APort 0), (2, APort 0)) ] |}.
+Lemma ex_tag_roundtrip : guard0 ex_tag = true /\ ops_ok_b N e0_ok ex_tag = true /\
+  tag_ok E0 (OTag 5%N (TSum [[tbool]])) = false /\ c_ndp E0 (OTag 5%N (TSum [[tbool]])) DIn = None /\
+  exists s h', to_s0 ex_tag = Some s /\ from_s0 s = Some h' /\ to_s0 h' = Some s /\ h_links h' = h_links ex_tag.
+Proof.
+  split; [vm_compute; reflexivity|]. split; [vm_compute; reflexivity|]. split; [reflexivity|]. split; [reflexivity|].
+  destruct (to_s0 ex_tag) as [s|] eqn:Es; [|vm_compute in Es; discriminate].
+  destruct (from_s0 s) as [h'|] eqn:Eh; [|vm_compute in Es; injection Es as <-; vm_compute in Eh; discriminate].
+  exists s, h'. vm_compute in Es. injection Es as <-. vm_compute in Eh. injection Eh as <-.
+  repeat split; vm_compute; reflexivity.
+Qed.
